@@ -7,8 +7,12 @@ market and dyadic parameters; both evaluation modes, costs zero and positive, wi
 recurrent prev_hedge input.
 predicate (real code): autograd gradient vs central finite differences of the real loss on the
 same paths; price() and compute_loss(enable_grad=False) carry no graph; validation losses inside fit
-carry no graph.
+carry no graph.  The simulated-market part also runs with the hedger in evaluation mode (after eval(), and
+after fit(validation=True) which leaves it there) and with user models built from pfhedge's own modules:
+a no-transaction-band strategy whose trainable band edges are the tensor-valued bounds of Clamp /
+LeakyClamp, and a Black-Scholes delta evaluated at trainable (shifted / marked-up) inputs.
 """
+import math
 from fractions import Fraction as F
 from common import *  # noqa
 from hedge_common import *  # noqa
@@ -191,41 +195,156 @@ def check(ctx):
     CRITS = [("erm", lambda: nn.EntropicRiskMeasure(1.0)), ("es", lambda: nn.ExpectedShortfall(0.5)), ("eloss", lambda: nn.EntropicLoss(2.0)),
              ("qcvar", lambda: nn.QuadraticCVaR(2.0)), ("oce", lambda: OCE(exp_utility)), ("iso", lambda: Shifted(nn.IsoelasticLoss(0.5), 10.0)),
              ("isolog", lambda: Shifted(nn.IsoelasticLoss(1.0), 10.0))]
-    for it in range(60 if ctx.tier == "quick" else 450):
+
+    class BandNet(torch.nn.Module):
+        """no-transaction-band strategy: the previous position clamped by pfhedge's Clamp / LeakyClamp into
+        [delta - act(f(x)), delta + act(g(x))] around the Black-Scholes delta.  The trainable parameters of (f, g) reach the loss ONLY through
+        the tensor-valued bounds of the clamp (and the recurrent input).  `margin` records the distance to the nearest kink (a position on a band
+        edge, an empty/inverted band edge-on-edge, a zero pre-activation of a piecewise-linear activation) over the forward calls since reset"""
+        def __init__(self, derivative, clamp, act, hidden):
+            super().__init__()
+            self.delta = nn.BlackScholes(derivative)
+            w = len(self.delta.inputs())
+            if hidden:
+                self.net = torch.nn.Sequential(torch.nn.Linear(w, 2, dtype=dt), torch.nn.Tanh(), torch.nn.Linear(2, 2, dtype=dt))
+            else:
+                self.net = torch.nn.Sequential(torch.nn.Linear(w, 2, dtype=dt))
+            self.clamp, self.act, self.margin = clamp, act, float("inf")
+
+        def inputs(self):
+            return self.delta.inputs() + ["prev_hedge"]
+
+        def forward(self, input):
+            prev, x = input[..., [-1]], input[..., :-1]
+            delta = self.delta(x)
+            pre = self.net(x)
+            if self.act == "softplus":
+                wd = torch.nn.functional.softplus(pre)
+            elif self.act == "leaky_relu":
+                wd = torch.nn.functional.leaky_relu(pre, 0.01)
+            else:
+                wd = torch.relu(pre)
+            lower, upper = delta - wd[..., [0]], delta + wd[..., [1]]
+            with torch.no_grad():
+                ds = [(prev - lower).abs().min(), (prev - upper).abs().min(), (upper - lower).abs().min()]
+                if self.act != "softplus":
+                    ds.append(pre.abs().min())
+                self.margin = min([self.margin] + [float(x_) for x_ in ds])
+            return self.clamp(prev, min=lower, max=upper)
+
+    class MarkedUpBS(torch.nn.Module):
+        """Black-Scholes delta at a trainable strike shift and volatility mark-up (Leland-type): the parameters reach the loss ONLY through the
+        inputs of pfhedge's BlackScholes module; with prev_hedge among the inputs, a trainable partial adjustment towards that delta"""
+        def __init__(self, derivative, recurrent, shift, log_markup, mix):
+            super().__init__()
+            self.bs = nn.BlackScholes(derivative)
+            self.names, self.recurrent = list(self.bs.inputs()), recurrent
+            self.shift = torch.nn.Parameter(torch.tensor(shift, dtype=dt))
+            self.log_markup = torch.nn.Parameter(torch.tensor(log_markup, dtype=dt))
+            if recurrent:
+                self.mix = torch.nn.Parameter(torch.tensor(mix, dtype=dt))
+
+        def inputs(self):
+            return self.names + (["prev_hedge"] if self.recurrent else [])
+
+        def forward(self, input):
+            cols = []
+            for i, nm in enumerate(self.names):
+                c = input[..., [i]]
+                if nm.endswith("log_moneyness"):       # log_moneyness and (lookback) max_log_moneyness: the same shift of the strike
+                    c = c + self.shift
+                elif nm == "volatility":
+                    c = c * self.log_markup.exp()
+                cols.append(c)
+            out = self.bs(torch.cat(cols, dim=-1))
+            if self.recurrent:
+                prev = input[..., [len(self.names)]]
+                out = prev + torch.sigmoid(self.mix) * (out - prev)
+            return out
+    n_lin = 60 if ctx.tier == "quick" else 450
+    NEW_KINDS = ["ntb-clamp", "ntb-leaky", "bs-wrapped", "bs-wrapped-batched"]
+    n_new = 20 if ctx.tier == "quick" else 196
+    for it in range(n_lin + n_new):
+        kind = "linear" if it < n_lin else NEW_KINDS[(it - n_lin) % len(NEW_KINDS)]
         cname, mk_crit = CRITS[it % len(CRITS)]
         crit = mk_crit()
-        stateful = g.chance(0.5)
+        stateful = g.chance(0.5) if kind == "linear" else kind != "bs-wrapped-batched"
         stock = g.choice([lambda: BrownianStock(cost=g.choice([0.0, 1e-3, 1e-2]), dtype=dt), lambda: HestonStock(cost=1e-3, dtype=dt)])()
-        d = g.choice([EuropeanOption, LookbackOption])(stock, maturity=g.choice([3, 5]) / 250)
+        opt = g.choice([EuropeanOption, LookbackOption])
+        if kind in ("bs-wrapped", "bs-wrapped-batched"):
+            # two rounds in three on the European option; the lookback module is its own input class (key grad:bs-wrapped:lookback below)
+            opt = LookbackOption if ((it - n_lin) // len(NEW_KINDS)) % 3 == 2 else EuropeanOption
+        elif kind != "linear" and g.chance(0.6):
+            opt = EuropeanOption      # (the lookback delta, an autograd call per time step, is ten times dearer)
+        d = opt(stock, maturity=g.choice([3, 5]) / 250)
         torch.manual_seed(g.randint(0, 10 ** 6))
-        feats = ["moneyness", "time_to_maturity"] + (["prev_hedge"] if stateful else [])
         embed = None
-        if g.chance(0.35):
-            # a trainable embedding as a ModuleOutput feature (its parameters belong to what is trained; with prev_hedge among its
-            # inputs the recurrent path runs through it)
-            from pfhedge.features import ModuleOutput
-            embed = torch.nn.Sequential(torch.nn.Linear(len(feats), 2, dtype=dt), torch.nn.Tanh())
-            feats = [ModuleOutput(embed, feats), "volatility"]
-        model = torch.nn.Linear(3 if embed is not None else len(feats), 1, dtype=dt)
+        spec = {}
+        if kind == "linear":
+            feats = ["moneyness", "time_to_maturity"] + (["prev_hedge"] if stateful else [])
+            if g.chance(0.35):
+                # a trainable embedding as a ModuleOutput feature (its parameters belong to what is trained; with prev_hedge among its
+                # inputs the recurrent path runs through it)
+                from pfhedge.features import ModuleOutput
+                embed = torch.nn.Sequential(torch.nn.Linear(len(feats), 2, dtype=dt), torch.nn.Tanh())
+                feats = [ModuleOutput(embed, feats), "volatility"]
+            model = torch.nn.Linear(3 if embed is not None else len(feats), 1, dtype=dt)
+        elif kind in ("ntb-clamp", "ntb-leaky"):
+            spec = {"act": g.choice(["relu", "leaky_relu", "softplus"]), "hidden": g.chance(0.25),
+                    "half_widths": [g.choice([0.03, 0.06, 0.125, 0.25]) for _ in range(2)]}
+            if kind == "ntb-clamp":
+                cl = nn.Clamp()
+            else:
+                spec |= {"clamped_slope": g.choice([0.01, 0.1]), "inverted_output": g.choice(["mean", "max"])}
+                cl = nn.LeakyClamp(spec["clamped_slope"], inverted_output=spec["inverted_output"])
+            model = BandNet(d, cl, spec["act"], spec["hidden"])
+            with torch.no_grad():      # band half-widths of a realistic size: positions below, inside and above the band all occur
+                model.net[-1].bias.copy_(torch.tensor(spec["half_widths"], dtype=dt))
+            feats = model.inputs()
+        else:
+            spec = {"shift": g.choice([-0.02, -0.01, 0.01, 0.02]), "log_markup": g.choice([-0.2, 0.1, 0.3]), "mix": g.choice([-1.0, 0.0, 1.5])}
+            model = MarkedUpBS(d, stateful, spec["shift"], spec["log_markup"], spec["mix"])
+            feats = model.inputs()
+        # the mode of the hedger module when a differentiable loss is requested: fresh (training), after eval(), after fit(validation=True)
+        # (which leaves the module in evaluation mode).  bs-wrapped-batched is kept out of fit: see the key grad:bs-wrapped:batched-nan below
+        mode = g.choice(["train", "train", "eval", "after-fit"]) if kind != "bs-wrapped-batched" else g.choice(["train", "eval"])
+        sfx = ("" if kind == "linear" else ":" + kind) + ("" if mode == "train" else ":" + mode)
+        # input classes with one key each, whatever the criterion / mode / predicate (missing graph or wrong gradient value):
+        #  * a Black-Scholes module of a LOOKBACK option fed with parameter-dependent inputs (BSLookbackOption.forward -> delta() obtains the
+        #    delta by automatic differentiation of the price with create_graph=False: its output carries no graph)
+        one_key = "grad:bs-wrapped:lookback" if kind in ("bs-wrapped", "bs-wrapped-batched") and opt is LookbackOption else None
         hedger = Hedger(model, feats, criterion=crit)
         k = g.choice([1, 2, 3])
         npaths = g.choice([4, 7])
         case = {"graph_check": it, "criterion": cname, "stateful": stateful, "n_times": k, "n_paths": npaths, "primary": type(stock).__name__,
                 "option": type(d).__name__, "module_output_feature": embed is not None}
+        if kind != "linear" or mode != "train":
+            case |= {"model_kind": kind, "hedger_mode": mode} | spec
         ctx.case(case, True, tag="graph")
         ctx.stats[f"graph:crit={cname}"] += 1
+        ctx.stats[f"graph:model={kind}"] += 1
+        ctx.stats[f"graph:mode={mode}"] += 1
+        if mode == "eval":
+            hedger.eval()
+        elif mode == "after-fit":
+            st, res, _ = call_impl(hedger.fit, d, n_epochs=1, n_paths=npaths, verbose=False)
+            if st != "ok":
+                ctx.fail("fit (one epoch, with validation) raised", case, key=f"fit-error{sfx}", detail=res)
+                continue
+            if hedger.training:      # not a property failure: the scenario (a loss requested from a hedger in evaluation mode) needs it
+                hedger.eval()
         p = hedger.price(d, n_paths=npaths, n_times=k)
         if p.requires_grad or p.grad_fn is not None:
-            ctx.fail("price() carries an autograd graph by default", case, key="graph:price")
+            ctx.fail("price() carries an autograd graph by default", case, key="graph:price" + sfx)
         p2 = hedger.price(d, n_paths=npaths, n_times=k, enable_grad=True)
         if not p2.requires_grad:
-            ctx.fail("price(enable_grad=True) carries no graph", case, key="graph:price-enable")
+            ctx.fail("price(enable_grad=True) carries no graph", case, key=one_key or "graph:price-enable" + sfx)
         l0 = hedger.compute_loss(d, n_paths=npaths, n_times=k, enable_grad=False)
         if l0.requires_grad or l0.grad_fn is not None:
-            ctx.fail("compute_loss(enable_grad=False) carries an autograd graph", case, key="graph:compute_loss")
+            ctx.fail("compute_loss(enable_grad=False) carries an autograd graph", case, key="graph:compute_loss" + sfx)
         l1 = hedger.compute_loss(d, n_paths=npaths, n_times=k)
         if not l1.requires_grad:
-            ctx.fail("compute_loss() carries no graph although gradients are enabled", case, key="graph:compute_loss-enable")
+            ctx.fail("compute_loss() carries no graph although gradients are enabled", case, key=one_key or "graph:compute_loss-enable" + sfx)
         # ---- gradient of the ensemble loss: autograd vs (a) mean of the k single-batch gradients under the same random seed,
         #      (b) central finite differences of the loss re-evaluated under that seed (same paths)
         params = list(model.parameters()) + list(crit.parameters()) + (list(embed.parameters()) if embed is not None else [])
@@ -236,27 +355,52 @@ def check(ctx):
             for p_, gr in zip(params, gs):
                 out += ([0.0] * p_.numel() if gr is None else [float(x) for x in gr.reshape(-1).tolist()])
             return out
+
+        def grad_of(l_):
+            """the gradient training would see: a loss that carries no graph moves no parameter (zero gradient; the finite differences decide
+            whether that is right)"""
+            if not l_.requires_grad:
+                return "ok", [0.0] * sum(p_.numel() for p_ in params)
+            st_, gs_, _ = call_impl(torch.autograd.grad, l_, params, allow_unused=True)
+            return st_, (flat(gs_) if st_ == "ok" else gs_)
         torch.manual_seed(seed)
         lk = hedger.compute_loss(d, n_paths=npaths, n_times=k)
-        gk = flat(torch.autograd.grad(lk, params, allow_unused=True))
-        torch.manual_seed(seed)
-        singles = []
-        for _ in range(k):
-            l_ = hedger.compute_loss(d, n_paths=npaths, n_times=1)
-            singles.append(flat(torch.autograd.grad(l_, params, allow_unused=True)))
-        gm = [sum(col) / k for col in zip(*singles)]
-        scale = max(1.0, max(abs(x) for x in gk + gm))
+        st, gk = grad_of(lk)
+        if st != "ok":
+            ctx.fail("back-propagating the hedging loss raised", case | {"seed": seed}, key=f"grad:simulated:{cname}{sfx}:backward-error", detail=gk)
+            continue
+        finite = all(math.isfinite(x) for x in gk)
         ctx.traces += 1
-        ptol = []
-        for p_ in params:      # OCE's own parameter w is float32 whatever the market's dtype
-            ptol += [1e-9 if p_.dtype == torch.float64 else 1e-5] * p_.numel()
-        if any(abs(a_ - b_) > t_ * scale for a_, b_, t_ in zip(gk, gm, ptol)):
-            ctx.fail("the gradient of an ensemble loss (n_times >= 2) is not the mean of the gradients of its members on the same paths", case | {"seed": seed},
-                     key=f"grad:ensemble:{cname}", detail={"autograd": gk, "mean_of_members": gm})
+        if finite:
+            torch.manual_seed(seed)
+            singles = []
+            for _ in range(k):
+                l_ = hedger.compute_loss(d, n_paths=npaths, n_times=1)
+                singles.append(grad_of(l_))
+            if any(st_ != "ok" for st_, _ in singles):
+                ctx.fail("back-propagating the hedging loss raised", case | {"seed": seed}, key=f"grad:simulated:{cname}{sfx}:backward-error",
+                         detail=[x for st_, x in singles if st_ != "ok"][0])
+                continue
+            gm = [sum(col) / k for col in zip(*[x for _, x in singles])]
+            scale = max(1.0, max(abs(x) for x in gk + gm))
+            ptol = []
+            for p_ in params:      # OCE's own parameter w is float32 whatever the market's dtype
+                ptol += [1e-9 if p_.dtype == torch.float64 else 1e-5] * p_.numel()
+            if not all(abs(a_ - b_) <= t_ * scale for a_, b_, t_ in zip(gk, gm, ptol)):
+                ctx.fail("the gradient of an ensemble loss (n_times >= 2) is not the mean of the gradients of its members on the same paths", case | {"seed": seed},
+                         key=f"grad:ensemble:{cname}{sfx}", detail={"autograd": gk, "mean_of_members": gm})
 
         def loss_at():
             torch.manual_seed(seed)
             return float(hedger.compute_loss(d, n_paths=npaths, n_times=k, enable_grad=False))
+        if kind in ("ntb-clamp", "ntb-leaky"):
+            # generic point?  the clamp, an inverted band and a piecewise-linear width activation have kinks: a case within 2^-16 of one on these
+            # paths is rejected for the finite-difference predicate (steps 2^-20, 2^-28) and counted
+            model.margin = float("inf")
+            loss_at()
+            if not model.margin >= 2.0 ** -16:
+                ctx.stats["graph:rejected_near_kink"] += 1
+                continue
         for h in (2.0 ** -20, 2.0 ** -28):
             fd = []
             with torch.no_grad():
@@ -270,18 +414,34 @@ def check(ctx):
                         lm = loss_at()
                         fl[i] = old
                         fd.append((lp - lm) / (2 * h))
+            if not finite:
+                break
             scale = max(1.0, max(abs(x) for x in fd), abs(float(lk.detach())))
             tol = 2e-5 if h > 1e-7 else 1e-3
-            badi = [i for i, (a_, b_) in enumerate(zip(gk, fd)) if abs(a_ - b_) > tol * scale]
+            badi = [i for i, (a_, b_) in enumerate(zip(gk, fd)) if not abs(a_ - b_) <= tol * scale]
             if not badi:
                 break
+        if not finite:
+            # NaN / infinite entries compare False with everything: they get their own predicate.  The loss and its difference quotients are
+            # finite numbers here, so the loss is a differentiable function of the parameters on these paths and its gradient is a finite vector
+            if math.isfinite(float(lk.detach())) and all(math.isfinite(x) for x in fd):
+                ctx.fail("the back-propagated gradient of the hedging loss has NaN / infinite entries although the loss and its finite differences on the same "
+                         "simulated paths are finite", case | {"seed": seed},
+                         key="grad:bs-wrapped:batched-nan" if kind == "bs-wrapped-batched" else f"grad:simulated:{cname}{sfx}:non-finite",
+                         detail={"autograd": gk, "finite_difference": fd, "loss": float(lk.detach())})
+            continue
         if badi:
             ctx.fail("the back-propagated gradient of the hedging loss differs from the derivative of the loss (finite differences on the same simulated paths)",
-                     case | {"seed": seed}, key=f"grad:simulated:{cname}", detail={"autograd": gk, "finite_difference": fd, "params": badi})
+                     case | {"seed": seed}, key=one_key or f"grad:simulated:{cname}{sfx}", detail={"autograd": gk, "finite_difference": fd, "params": badi})
     return ctx.finish(
         rule="real Hedger (linear / ReLU-MLP with dyadic weights, 1-2 state-independent features +/- prev_hedge) on injected dyadic markets, costs "
              "{0, 1/64, 1/16, 1/8}, criteria ERM / ES / entropic loss / MSE / mean; cases within 2^-20 of a kink (zero position change with cost, ES tie) "
              "are rejected and counted; non-trivial = cost > 0 or recurrent input; distinct = sha1 of canonical case. Additionally, on simulated "
              "Brownian/Heston markets with every built-in criterion (ERM, ES, entropic loss, quadratic CVaR, OCE with its own parameter w, isoelastic "
              "a=0.5 and a=1 behind a user wrapper) and n_times in {1,2,3}: graph presence/absence of price / compute_loss under enable_grad, the "
-             "ensemble gradient vs the mean of member gradients under the same seed, and vs finite differences on the re-seeded paths")
+             "ensemble gradient vs the mean of member gradients under the same seed, and vs finite differences on the re-seeded paths (NaN / infinite "
+             "gradient entries with finite loss and difference quotients are failures); the hedger module fresh, after eval() and after "
+             "fit(validation=True); besides the linear model (+/- ModuleOutput embedding): a no-transaction-band strategy whose trainable band edges "
+             "are the tensor bounds of pfhedge's Clamp / LeakyClamp (relu / leaky-relu / softplus widths; cases within 2^-16 of a clamp / activation "
+             "kink rejected and counted) and a Black-Scholes module evaluated at a trainable strike shift and volatility mark-up, step-by-step (with "
+             "a trainable partial adjustment of prev_hedge) and all steps at once")
